@@ -42,6 +42,7 @@ type partCfg struct {
 type fuzzCfg struct {
 	Target  string
 	Seconds int
+	Env     []string
 }
 
 type propCfg struct {
@@ -455,8 +456,33 @@ func runProperty(p propCfg, tier string) int {
 		}
 	}
 
+	// 2b. native fuzz campaigns (thorough tier only; cannot be seeded - the saved input is the reproducible unit)
+	var fuzzRuns []map[string]interface{}
+	if tier == "thorough" && violations == 0 {
+		for _, fz := range p.Fuzz {
+			fr, viol, bad := runFuzz(p, fz, work, logDir)
+			fuzzRuns = append(fuzzRuns, fr)
+			if viol != "" {
+				violations++
+				violationLines = append(violationLines, fmt.Sprintf("VIOLATION property=%s replay=%s", p.ID, viol))
+			}
+			if bad {
+				infra++
+			}
+		}
+	}
+
 	// 3. evidence
 	ev := mergeEvidence(p, tier, base, work, len(jobs), replayed, violations, shortfall, time.Since(start))
+	if len(fuzzRuns) > 0 {
+		cov := ev["coverage"].(map[string]interface{})
+		cov["native_fuzz"] = fuzzRuns
+		var execs int64
+		for _, fr := range fuzzRuns {
+			execs += fr["execs"].(int64)
+		}
+		cov["evaluations"] = cov["evaluations"].(int64) + execs
+	}
 	if err := writeEvidence(p.ID, ev); err != nil {
 		fmt.Fprintf(os.Stderr, "vcheck: evidence: %v\n", err)
 		infra++
@@ -678,6 +704,9 @@ func doReplay(path string) int {
 	if err != nil {
 		fatal(2, "read %s: %v", abs, err)
 	}
+	if bytes.HasPrefix(b, []byte("go test fuzz")) {
+		return replayFuzzFile(abs)
+	}
 	var sc struct {
 		Property string `json:"property"`
 		Part     string `json:"part"`
@@ -719,6 +748,121 @@ func doReplay(path string) int {
 	}
 	if code != 0 {
 		return 2
+	}
+	return 0
+}
+
+var execsRe = regexp.MustCompile(`execs: (\d+) .*new interesting: (\d+) \(total: (\d+)\)`)
+var failingInputRe = regexp.MustCompile(`Failing input written to (\S+)`)
+
+// runFuzz runs one native fuzz campaign. Returns its summary, the replay path of a violation
+// ("" if none) and whether the campaign itself broke (infrastructure).
+func runFuzz(p propCfg, fz fuzzCfg, work, logDir string) (map[string]interface{}, string, bool) {
+	foundDir := filepath.Join(work, "found.fuzz."+fz.Target)
+	args := []string{"test", "-vet=off"}
+	args = append(args, buildArgs()...)
+	args = append(args, buildTags()...)
+	args = append(args, "-run", "^$", "-fuzz", "^"+fz.Target+"$", "-fuzztime", strconv.Itoa(fz.Seconds)+"s", "./props")
+	cmd := exec.Command("go", args...)
+	cmd.Dir = root
+	cmd.Env = append(os.Environ(), "VERIF_FOUND_DIR="+foundDir, "VERIF_KNOWN="+knownPath(), "VERIF_TIER=thorough")
+	cmd.Env = append(cmd.Env, fz.Env...)
+	var buf bytes.Buffer
+	cmd.Stdout, cmd.Stderr = &buf, &buf
+	err := cmd.Run()
+	out := buf.String()
+	os.MkdirAll(logDir, 0o755)
+	os.WriteFile(filepath.Join(logDir, p.ID+".fuzz."+fz.Target+".log"), buf.Bytes(), 0o644)
+	fr := map[string]interface{}{"target": fz.Target, "seconds": fz.Seconds, "execs": int64(0), "corpus_total": int64(0)}
+	if ms := execsRe.FindAllStringSubmatch(out, -1); len(ms) > 0 {
+		m := ms[len(ms)-1]
+		n, _ := strconv.ParseInt(m[1], 10, 64)
+		tot, _ := strconv.ParseInt(m[3], 10, 64)
+		fr["execs"], fr["corpus_total"] = n, tot
+	}
+	if err == nil {
+		return fr, "", false
+	}
+	m := failingInputRe.FindStringSubmatch(out)
+	if m == nil {
+		fmt.Fprintf(os.Stderr, "vcheck: fuzz campaign %s failed without a failing input (infrastructure)\n%s\n", fz.Target, tailOf(out, 30))
+		return fr, "", true
+	}
+	crasher := filepath.Join(root, "props", m[1])
+	// re-run the minimised input alone so that the property writes its JSON case
+	os.RemoveAll(foundDir)
+	rargs := []string{"test", "-vet=off"}
+	rargs = append(rargs, buildArgs()...)
+	rargs = append(rargs, buildTags()...)
+	rargs = append(rargs, "-run", "^"+fz.Target+"/"+filepath.Base(crasher)+"$", "./props")
+	rc := exec.Command("go", rargs...)
+	rc.Dir = root
+	rc.Env = cmd.Env
+	rc.Run()
+	dst := ""
+	if _, err := os.Stat(filepath.Join(foundDir, "last.json")); err == nil {
+		dst = keepFound(p.ID, filepath.Join(foundDir, "last.json"))
+	} else {
+		// no JSON case (raw oracle inside the target): keep the corpus file itself
+		dir := filepath.Join(root, "found", p.ID)
+		if altRepo() {
+			dir = filepath.Join(root, ".build", "found-alt", p.ID)
+		}
+		os.MkdirAll(dir, 0o755)
+		dst = filepath.Join(dir, "fuzz-"+fz.Target+"-"+filepath.Base(crasher))
+		if b, err := os.ReadFile(crasher); err == nil {
+			os.WriteFile(dst, b, 0o644)
+		}
+	}
+	os.Remove(crasher) // the committed tree keeps no crashers under testdata/
+	os.Remove(filepath.Dir(crasher))
+	fmt.Fprintf(os.Stderr, "vcheck: fuzz campaign %s found a failing input; log %s\n%s\n", fz.Target, filepath.Join(logDir, p.ID+".fuzz."+fz.Target+".log"), tailOf(out, 25))
+	fr["failed"] = true
+	return fr, dst, false
+}
+
+// replayFuzzFile re-runs a kept Go fuzz corpus file (found/<id>/fuzz-<Target>-<hash>).
+func replayFuzzFile(abs string) int {
+	name := filepath.Base(abs)
+	parts := strings.SplitN(strings.TrimPrefix(name, "fuzz-"), "-", 2)
+	if len(parts) != 2 {
+		fatal(2, "cannot tell the fuzz target from %s", name)
+	}
+	target, hash := parts[0], parts[1]
+	dir := filepath.Join(root, "props", "testdata", "fuzz", target)
+	os.MkdirAll(dir, 0o755)
+	b, err := os.ReadFile(abs)
+	if err != nil {
+		fatal(2, "%v", err)
+	}
+	tmp := filepath.Join(dir, "replay-"+hash)
+	os.WriteFile(tmp, b, 0o644)
+	defer func() {
+		os.Remove(tmp)
+		os.Remove(dir)
+		os.Remove(filepath.Dir(dir))
+		os.Remove(filepath.Dir(filepath.Dir(dir)))
+	}()
+	args := []string{"test", "-vet=off"}
+	args = append(args, buildArgs()...)
+	args = append(args, buildTags()...)
+	args = append(args, "-run", "^"+target+"/replay-"+hash+"$", "-v", "./props")
+	cmd := exec.Command("go", args...)
+	cmd.Dir = root
+	cmd.Env = append(os.Environ(), "VERIF_KNOWN="+knownPath(), "VERIF_NO_EXCLUDE=1")
+	out, err := cmd.CombinedOutput()
+	fmt.Println(tailOf(string(out), 30))
+	if err != nil {
+		prop := "?"
+		for _, p := range registry {
+			for _, fz := range p.Fuzz {
+				if fz.Target == target {
+					prop = p.ID
+				}
+			}
+		}
+		fmt.Printf("VIOLATION property=%s replay=%s\n", prop, abs)
+		return 1
 	}
 	return 0
 }
